@@ -372,9 +372,12 @@ def _capture():
     for name, lang in sorted(Languages.by_name.items()):
         exprs = []
 
-        def rec(expression, tokens, _exprs=exprs):
-            _exprs.append(expression)
-            return []
+        def make(exprs_):
+            def rec(expression, tokens, *a, **kw):
+                exprs_.append(expression)
+                return []
+            return rec
+        rec = make(exprs)
 
         scope_utils.find_all = rec
         try:
@@ -450,7 +453,8 @@ def eval_captured(lang, idx, codes):
         matches = find_all(expr, toks)
     except Exception as e:  # noqa
         return None, [("find-all-raises", {"clause": "total", "error": type(e).__name__}, repr(e))]
-    dfa = nfa_to_dfa(expression_to_nfa(expr))
+    from mc.checks.c15 import build_dfa
+    dfa = build_dfa(expr)
     memo = {}
 
     def isolated(s, upto=None):
